@@ -289,7 +289,9 @@ def run_shard(ctx):
         if i % 64 == 0 and ctx.out_of_time():
             break
         fmt = formats.FORMATS[i % len(formats.FORMATS)]
-        D = formats.gen(fmt, rng)
+        # converse: realistic documented-valid values only (printable single-line text); exotic-but-untyped values
+        # (empty short names, control characters) are exercised by C01-C04, where a refusal is counted, not judged
+        D = formats.gen(fmt, rng, hostile=False)
         check_valid(ctx, pms, fmt, D, rng.randrange(1 << 30), tmpdir)
         ctx.case_done({"valid": fmt, "D": D}, nontrivial=True)
     if ctx.shard == 0:
